@@ -30,12 +30,14 @@ LEADER = 55
 OTHER = 66
 
 
-def mk_vam(sid, cluster_id=None, card=2, join=None, leave=None, breakup=None, lat=413000000, lon=21000000):
+def mk_vam(sid, cluster_id=None, card=2, join=None, leave=None, breakup=None, lat=413000000, lon=21000000, bbox=True):
     p = {"basicContainer": {"referencePosition": {"latitude": lat, "longitude": lon}},
          "vruHighFrequencyContainer": {"speed": {"speedValue": 100}, "heading": {"value": 900}}}
     if cluster_id is not None:
         p["vruClusterInformationContainer"] = {"vruClusterInformation": {"clusterId": cluster_id, "clusterCardinalitySize": card,
                                                                          "clusterBoundingBoxShape": ("circular", {"radius": 50})}}
+        if not bbox:
+            del p["vruClusterInformationContainer"]["vruClusterInformation"]["clusterBoundingBoxShape"]      # the field is OPTIONAL
     op = {}
     if join is not None:
         op["clusterJoinInfo"] = {"clusterId": join, "joinTime": 4}
@@ -97,6 +99,7 @@ class Harness:
         vs = []
         before = m.state
         k = ev[0]
+        waiting_for = m._join_target_cluster_id if m._join_substate.value == "waiting" else None
         try:
             if k == "role_off":
                 m.set_vru_role_off()
@@ -127,6 +130,10 @@ class Harness:
                 m.on_received_vam(mk_vam(ev[1]))
             elif k == "rx_cluster":
                 m.on_received_vam(mk_vam(ev[1], cluster_id=ev[2]))
+            elif k == "rx_cluster_nobbox":
+                m.on_received_vam(mk_vam(ev[1], cluster_id=ev[2], bbox=False))
+            elif k == "rx_breakup_nobbox":
+                m.on_received_vam(mk_vam(ev[1], cluster_id=7, breakup=ev[2], bbox=False))
             elif k == "rx_join_own":
                 cid = m.get_cluster_id() if m.state is VBSState.VRU_ACTIVE_CLUSTER_LEADER else 7
                 m.on_received_vam(mk_vam(OTHER, join=cid))
@@ -144,16 +151,19 @@ class Harness:
             return vs
         after = m.state
         self.was.add(after.value)
+        if k in ("rx_cluster", "rx_cluster_nobbox") and waiting_for is not None and waiting_for == ev[2] and before is VBSState.VRU_ACTIVE_STANDALONE and after is not VBSState.VRU_PASSIVE:
+            vs.append(violation(ID, "C18/join-not-completed-by-cluster-vam", "waiting to be admitted to cluster %d; a cluster VAM for it from station %d arrived (%s) and the station is %s" % (
+                ev[2], ev[1], "no bounding box" if k.endswith("nobbox") else "with bounding box", after.value)))
         # bookkeeping for the timed clauses
         if after is VBSState.VRU_PASSIVE:
             if before is not VBSState.VRU_PASSIVE:
                 self.last_leader_rx = self.now
                 self.breakup_from_leader = False
                 self.join_t = None
-            sender = ev[1] if k in ("rx_plain", "rx_cluster", "rx_breakup") else (OTHER if k in ("rx_join_own", "rx_leave_own") else None)
+            sender = ev[1] if k in ("rx_plain", "rx_cluster", "rx_breakup", "rx_cluster_nobbox", "rx_breakup_nobbox") else (OTHER if k in ("rx_join_own", "rx_leave_own") else None)
             if sender is not None and sender == m._leader_station_id:
                 self.last_leader_rx = self.now          # any VAM of the leader re-arms the leader-lost timer
-            if k == "rx_breakup" and ev[1] == m._leader_station_id and ev[2] != "receptionOfCpmContainingCluster":
+            if k in ("rx_breakup", "rx_breakup_nobbox") and ev[1] == m._leader_station_id and ev[2] != "receptionOfCpmContainingCluster":
                 self.breakup_from_leader = True
         if before is VBSState.VRU_PASSIVE and after is VBSState.VRU_ACTIVE_STANDALONE:
             self.leave_t = self.now
@@ -282,7 +292,8 @@ def job_bfs(depth, shard, nshards):
 
 
 def seq_s():
-    ev = st.sampled_from(ALPHABET + [CPM]).map(list)
+    ev = st.sampled_from(ALPHABET + [CPM, ("rx_cluster_nobbox", LEADER, 7), ("rx_cluster_nobbox", OTHER, 8), ("rx_breakup_nobbox", LEADER, "clusterDisbandedByLeader")]).map(list)
+    scen4 = st.just([["join", 7], ["step", 3.1], ["update"], ["rx_cluster_nobbox", LEADER, 7], ["update"], ["step", 0.5], ["rx_breakup_nobbox", LEADER, "clusterDisbandedByLeader"], ["update"]])
     scen = st.just([["join", 7], ["step", 3.1], ["update"], ["rx_cluster", LEADER, 7]])
     scen2 = st.just([["create_enough"], ["rx_join_own"]])
     # member of cluster 7 leaves and starts joining again while the leave notification is still running
@@ -290,7 +301,7 @@ def seq_s():
                       st.sampled_from([0.05, 0.5]), st.sampled_from([1.0, 3.1])).map(
         lambda t: [["join", 7], ["step", 3.1], ["update"], ["rx_cluster", LEADER, 7], t[0], ["update"], ["step", t[1]], ["join", 7], ["step", t[2]], ["update"], ["step", 3.1], ["update"],
                    ["rx_cluster", LEADER, 7], ["update"]])
-    return st.lists(st.one_of(ev.map(lambda e: [e]), ev.map(lambda e: [e]), ev.map(lambda e: [e]), scen, scen2, scen3), min_size=1, max_size=40).map(lambda ll: {"events": [x for l in ll for x in l][:80]})
+    return st.lists(st.one_of(ev.map(lambda e: [e]), ev.map(lambda e: [e]), ev.map(lambda e: [e]), scen, scen2, scen3, scen4), min_size=1, max_size=40).map(lambda ll: {"events": [x for l in ll for x in l][:80]})
 
 
 def run_seq_case(case):
